@@ -16,13 +16,15 @@ def call_entry(w, entry, src, target=None, timeout=10.0):
     return w.call(req, timeout=timeout)
 
 
-def classify(r, entry, src, target, extra=None):
-    """-> violation dict or None"""
+def classify(r, entry, src, target, extra=None, origin=None):
+    """-> violation dict or None.  origin: corpus / grel (well-formed inputs), mutant / random / json (malformed)."""
     wit = {"entry": entry, "src": src, "target": target}
     if extra:
         wit.update(extra)
+    if origin:
+        wit["origin"] = origin
     if "panic" in r:
-        return {"property": "C12", "symptom": core.panic_sig(r["panic"]), "shape": entry, "witness": wit,
+        return {"property": "C12", "symptom": core.panic_sig(r["panic"]), "shape": entry + ((":" + origin) if origin else ""), "witness": wit,
                 "detail": r["panic"].get("msg", "")[:300]}
     if "abort" in r:
         fam = (extra or {}).get("family", "input")
@@ -31,7 +33,7 @@ def classify(r, entry, src, target, extra=None):
         return {"property": "C12", "symptom": "abort:" + r["abort"].get("kind", "?"), "shape": "%s:%s" % (entry, fam), "witness": wit,
                 "detail": "exit %s: %s" % (r["abort"].get("returncode"), r["abort"].get("stderr", "")[-200:])}
     if r.get("ok") is False and r.get("empty_reason"):
-        return {"property": "C12", "symptom": "error_without_reason", "shape": entry, "witness": wit, "detail": str(r)[:200]}
+        return {"property": "C12", "symptom": "error_without_reason", "shape": entry + ((":" + origin) if origin else ""), "witness": wit, "detail": str(r)[:200]}
     return None
 
 
@@ -55,7 +57,7 @@ def _src_shard(items, targets):
                 obs["by_origin"][origin] = obs["by_origin"].get(origin, 0) + 1
             elif r.get("ok") is False:
                 obs["err"] += 1
-            v = classify(r, entry, src, target)
+            v = classify(r, entry, src, target, origin=origin)
             if v:
                 obs["panics" if "panic" in r else "aborts"] += 1
                 key = (v["symptom"], v["shape"])
@@ -211,7 +213,7 @@ def _json_shard(seed, shard, srcs, n_mut, targets):
                         obs["json_ok"] += 1
                     elif r.get("ok") is False:
                         obs["json_err"] += 1
-                    v = classify(r, entry, text, t)
+                    v = classify(r, entry, text, t, origin="json")
                     if v:
                         key = (v["symptom"], v["shape"])
                         if key in seen:
@@ -295,5 +297,5 @@ def replay(case):
         return v
     r = call_entry(w, case["entry"], src, case.get("target"), timeout=20.0)
     w.close()
-    v = classify(r, case["entry"], src, case.get("target"), {"family": case["family"], "n": case["n"]} if case.get("family") else None)
+    v = classify(r, case["entry"], src, case.get("target"), {"family": case["family"], "n": case["n"]} if case.get("family") else None, origin=case.get("origin"))
     return [v] if v else []
